@@ -787,12 +787,15 @@ func (r *Runner) loadFacts(root *types.Package, dep *packageAction, objFacts map
 
 func genericHandle(a action, root action, queue chan action, sem *tsync.Semaphore, exec func(a action) error) {
 	if a == root {
+		verifClose(a)
 		close(queue)
 		if sem != nil {
+			verifRelease(a)
 			sem.Release()
 		}
 		return
 	}
+	verifStart(a)
 	if !a.IsFailed() {
 		// the action may have already been marked as failed during
 		// construction of the action graph, for example because of
@@ -816,12 +819,18 @@ func genericHandle(a action, root action, queue chan action, sem *tsync.Semaphor
 			a.AddError(err)
 		}
 	}
+	verifEnd(a)
 	if sem != nil {
+		verifRelease(a)
 		sem.Release()
 	}
 
 	for _, t := range a.Triggers() {
-		if t.DecrementPending() {
+		verifDecBegin(a)
+		last := t.DecrementPending()
+		verifDecEnd(a, t, last)
+		if last {
+			verifEnqueue(a, t)
 			queue <- t
 		}
 	}
@@ -1031,6 +1040,7 @@ func (r *subrunner) runAnalyzers(pkgAct *packageAction, pkg *loader.Package) (an
 		a.triggers = append(a.triggers, root)
 	}
 	root.pending = uint32(len(root.deps))
+	verifGraph(pkgAct, root, 0)
 
 	ar := &analyzerRunner{
 		pkg:         pkg,
@@ -1042,6 +1052,7 @@ func (r *subrunner) runAnalyzers(pkgAct *packageAction, pkg *loader.Package) (an
 	queue := make(chan action, len(all))
 	for _, a := range all {
 		if len(a.Deps()) == 0 {
+			verifSeed(a)
 			queue <- a
 		}
 	}
@@ -1053,7 +1064,9 @@ func (r *subrunner) runAnalyzers(pkgAct *packageAction, pkg *loader.Package) (an
 		close(queue)
 	}
 	for item := range queue {
+		verifDequeue(item)
 		b := r.semaphore.AcquireMaybe()
+		verifAcquired(item, b)
 		if b {
 			go genericHandle(item, root, queue, &r.semaphore, ar.do)
 		} else {
@@ -1062,6 +1075,7 @@ func (r *subrunner) runAnalyzers(pkgAct *packageAction, pkg *loader.Package) (an
 			genericHandle(item, root, queue, nil, ar.do)
 		}
 	}
+	verifExit(root)
 
 	var unusedResult unused.Result
 	for _, a := range all {
@@ -1204,6 +1218,7 @@ func (r *Runner) Run(cfg *packages.Config, analyzers []*analysis.Analyzer, patte
 		a.triggers = append(a.triggers, root)
 	}
 	root.pending = uint32(len(root.deps))
+	verifGraph(nil, root, r.semaphore.Cap())
 
 	queue := make(chan action)
 	r.Stats.setTotalPackages(len(all) - 1)
@@ -1212,6 +1227,7 @@ func (r *Runner) Run(cfg *packages.Config, analyzers []*analysis.Analyzer, patte
 	go func() {
 		for _, a := range all {
 			if len(a.Deps()) == 0 {
+				verifSeed(a)
 				queue <- a
 			}
 		}
@@ -1219,12 +1235,15 @@ func (r *Runner) Run(cfg *packages.Config, analyzers []*analysis.Analyzer, patte
 
 	sr := newSubrunner(r, analyzers)
 	for item := range queue {
+		verifDequeue(item)
 		r.semaphore.Acquire()
+		verifSpawn(item)
 		go genericHandle(item, root, queue, &r.semaphore, func(act action) error {
 			return sr.do(act)
 		})
 	}
 
+	verifExit(root)
 	r.Stats.setState(StateFinalizing)
 	out := make([]Result, 0, len(all))
 	for _, item := range all {
